@@ -275,6 +275,23 @@ func RegisterSpecs(c *Ctx) {
 			return vc.Val{T: r, Ty: types.Typ[types.Int]}, err
 		}
 	}
+	// HashSpec(T, x): the hash of a value as a function of (type, value) that
+	// respects structural equality. Used as the contract of the hash helper at its
+	// call sites; C04 is the proof that the emitted hash functions satisfy it.
+	e.Specs["HashSpec"] = func(e *vc.Engine, env *vc.SpecEnv, args []spec.Expr) (vc.Val, error) {
+		if len(args) != 2 {
+			return vc.Val{}, fmt.Errorf("spec: HashSpec(T, x)")
+		}
+		t, err := argType(env, args[0])
+		if err != nil {
+			return vc.Val{}, err
+		}
+		x, err := e.EvalSpec(env, args[1])
+		if err != nil {
+			return vc.Val{}, err
+		}
+		return vc.Val{T: c.hashOpaque(t, x.T), Ty: types.Typ[types.Uint64]}, nil
+	}
 	three("CmpTop", func(env *vc.SpecEnv, t *geval.SymType, a, b vc.Val) (smt.T, error) {
 		return c.CmpTop(env, t, a.T, b.T, 0)
 	})
@@ -376,6 +393,13 @@ func (c *Ctx) eqOpaque(t *geval.SymType, a, b smt.T) smt.T {
 		}
 		return smt.App(smt.Bool, "goeq", tt, a, b)
 	}
+	c.declEqSpec()
+	return c.uf("EqSpec", smt.Bool, tt, vc.Box(a), vc.Box(b))
+}
+
+// declEqSpec declares the structural equality of opaque components with its
+// equivalence axioms.
+func (c *Ctx) declEqSpec() {
 	if !c.E.Decls.HasFun("EqSpec") {
 		// structural equality of an opaque component is an equivalence (the
 		// induction hypothesis of C02's reflexive/symmetric/transitive clause)
@@ -389,7 +413,24 @@ func (c *Ctx) eqOpaque(t *geval.SymType, a, b smt.T) smt.T {
 		bs = append(bs, smt.Bound{Name: "z", Sort: smt.V})
 		c.E.Axioms = append(c.E.Axioms, smt.Forall(bs, smt.Implies(smt.And(eq(x, y), eq(y, z)), eq(x, z)), eq(x, y), eq(y, z)))
 	}
-	return c.uf("EqSpec", smt.Bool, tt, vc.Box(a), vc.Box(b))
+}
+
+// hashOpaque: the hash of an opaque component: a function of the value with
+// values in uint64 that agrees on structurally equal values (C04, used as the
+// induction hypothesis / helper contract).
+func (c *Ctx) hashOpaque(t *geval.SymType, a smt.T) smt.T {
+	tt := c.typeVal(t).T
+	if !c.E.Decls.HasFun("HashSpec") {
+		c.E.Decls.Fun("HashSpec", []smt.Sort{smt.V, smt.V}, smt.Int)
+		c.declEqSpec()
+		ty, x, y := smt.T{S: "t", Sort: smt.V}, smt.T{S: "x", Sort: smt.V}, smt.T{S: "y", Sort: smt.V}
+		h := func(a smt.T) smt.T { return smt.App(smt.Int, "HashSpec", ty, a) }
+		bs := []smt.Bound{{Name: "t", Sort: smt.V}, {Name: "x", Sort: smt.V}}
+		c.E.Axioms = append(c.E.Axioms, smt.Forall(bs, smt.And(smt.Le(smt.IntLit(0), h(x)), smt.Le(h(x), smt.T{S: "18446744073709551615", Sort: smt.Int})), h(x)))
+		bs = append(bs, smt.Bound{Name: "y", Sort: smt.V})
+		c.E.Axioms = append(c.E.Axioms, smt.Forall(bs, smt.Implies(smt.App(smt.Bool, "EqSpec", ty, x, y), smt.Eq(h(x), h(y))), smt.App(smt.Bool, "EqSpec", ty, x, y)))
+	}
+	return smt.App(smt.Int, "HashSpec", tt, vc.Box(a))
 }
 
 // cmpOpaque: the three-way comparison of an opaque component: a total preorder
